@@ -110,6 +110,13 @@ func (a *Analyzer) exec(ctx int, instr ssa.Instruction, st *State, depth int) []
 	case *ssa.RunDefers:
 		// named-result cells: nil stays nil, non-nil stays non-nil (wrappers)
 		for k, cv := range s.cells {
+			if a.trace {
+				if r, ok := cv.(ARef); ok {
+					fmt.Printf("DBG rundefers %s cell %v: ARef id=%v nilx=%d\n", v.Parent().Name(), k.alloc.Name(), r.id, s.nilx[r.id])
+				} else {
+					fmt.Printf("DBG rundefers %s cell %v: %T\n", v.Parent().Name(), k.alloc.Name(), cv)
+				}
+			}
 			if r, ok := cv.(ARef); ok && s.nilx[r.id] == 2 {
 				nr := ARef{vkey{ctx*100000 + v.Block().Index, k.alloc}}
 				s.nilx[nr.id] = 2
